@@ -124,7 +124,7 @@ prop(
 
 prop(
     "C19",
-    lean_modules=["BloomVerif.Lemmas.Format", "BloomVerif.Props.C19"],
+    lean_modules=["BloomVerif.Lemmas.Format", "BloomVerif.Bridge.PlanReads", "BloomVerif.Props.C19"],
     technique="Lean 4 proof over all int64 framing values (regenerated wrapping validation = exact model, acceptance implies in-bounds, chunk and slice bounds, scanner bounds) + differential validators + mutation fuzz",
     design_ref="DESIGN.md section 4 C19",
     text="Machine-checked for every int64 value of the framing fields: the validation regenerated from the Go source never overflows and equals the exact-arithmetic model; accepted metadata keeps the region, every row-data extent and "
@@ -361,7 +361,7 @@ prop(
 
 prop(
     "C24",
-    lean_modules=["BloomVerif.Bridge.PreCond", "BloomVerif.Props.C24"],
+    lean_modules=["BloomVerif.Bridge.PreCond", "BloomVerif.Bridge.PlanReads", "BloomVerif.Props.C24"],
     technique="Lean 4 proof on the read-plan model (open requires surviving blocks and a passing file filter; a row read requires prefilter and block-filter pass; no region read without conditions) + comparison of every read extent of the auditing store with the plan",
     design_ref="DESIGN.md section 4 C24",
     text="Machine-checked for the plan; on real layouts every OpenFile and every successful read extent [offset, length) logged by the auditing DataStore during fault-free, uncancelled queries must be explained by the plan: only planned files are opened, row data is read only of blocks the plan scans, "
